@@ -33,8 +33,8 @@ ITER_SCOPE = scope_prefix("instruction::reduce::", "<instruction::reduce::", "in
 STDLIB_SCOPE = scope_prefix("stdlib::", "<stdlib::", "variable::try_from::", "<variable::Variable as std::convert::From<std::io")
 
 prop("C01",
-     [guard.run, guard.run_mustcall, misc.run_fnexit, misc.run_looptype, misc.run_slicetype, misc.run_celltype, queryguard.run, fold.run, scope.run, round3.run_meetuse, round3.run_assigntyping, round3.run_cellmember, lock.run_global, round4.run_fnlocal, variance.run],
-     "R-VARIANCE: every assignability test of the checker goes through Type::matches, whose direction clauses and mandatory conjuncts are part of soundness. R-FNLOCAL: the scope entry of a function literal carries its result type. Also R-GLOBAL: no cache of parse results outlives the scope they were checked against. Also: Type::conjoin (a mere lower bound) is used only for parameter types (R-MEETUSE); `X=` is typed with the typing functions of X (R-ASSIGNTYPING). Decides the structural half of type soundness: all 43 static checks the soundness argument leans on exist, are tested "
+     [guard.run, guard.run_mustcall, misc.run_fnexit, misc.run_looptype, misc.run_slicetype, misc.run_celltype, queryguard.run, fold.run, scope.run, round3.run_meetuse, round3.run_assigntyping, round3.run_cellmember, lock.run_global, lock.run, round4.run_fnlocal, variance.run],
+     "R-LOCK (a cell read without its lock, or through a second lock, lets a checked value change under the reader). R-VARIANCE: every assignability test of the checker goes through Type::matches, whose direction clauses and mandatory conjuncts are part of soundness. R-FNLOCAL: the scope entry of a function literal carries its result type. Also R-GLOBAL: no cache of parse results outlives the scope they were checked against. Also: Type::conjoin (a mere lower bound) is used only for parameter types (R-MEETUSE); `X=` is typed with the typing functions of X (R-ASSIGNTYPING). Decides the structural half of type soundness: all 43 static checks the soundness argument leans on exist, are tested "
      "before every success value of their creation function and cannot be bypassed (R-GUARD, R-MUSTCALL); falling off a function "
      "body yields () and MissingReturn stands in front of that for non-() functions (R-FNEXIT); the Type queries that compute "
      "result types treat all union members alike (R-FOLD); no operator runs a callee in the caller's scope (R-SCOPE). It does NOT "
@@ -87,8 +87,8 @@ prop("C05",
      "commutativity of Type::concat / conjoin is a reviewed reason, not proved")
 
 prop("C06",
-     [scope.run, layer.run, round4.run_declvalues, guard.run_mustcall, round6.run_unarycall, round6.run_whobinds],
-     "R-UNARYCALL, R-WHOBINDS. R-MUSTCALL rows: a declared function (re)binds its own name on every path of its creation and folding. R-DECLVALUES: a declaration of several names does not see the names it declares. Decides: Function::exec (runs a body in the given scope) is called only from exec_with_args (fresh interpreter holding self + "
+     [scope.run, layer.run, round4.run_declvalues, guard.run_mustcall, round6.run_unarycall, round6.run_whobinds, errflow.run],
+     "R-ERRFLOW (an error raised while a layer is built or a callee runs is never dropped, so a scope is never left half-built). R-UNARYCALL, R-WHOBINDS. R-MUSTCALL rows: a declared function (re)binds its own name on every path of its creation and folding. R-DECLVALUES: a declaration of several names does not see the names it declares. Decides: Function::exec (runs a body in the given scope) is called only from exec_with_args (fresh interpreter holding self + "
      "params) and the host-call harness (R-SCOPE); each scoping construct creates its layer at check, fold and run time and runs "
      "its inside against the new layer; capture = recreate against the creating interpreter; modules are built from exactly the "
      "dropped layer; lower_layer is a shared reference and insert touches only the own map (R-LAYER, 26 obligations). Does NOT "
@@ -121,8 +121,8 @@ prop("C09",
      "forbidden-callee scan, panic inventory, cast guards", "")
 
 prop("C10",
-     [variance.run, round3.run_meetuse, round4.run_meetcell, round4.run_concat, fold.run, round6.run_noabsorb],
-     "R-FOLD: every Type query answers for a union member-wise (or delegates to exactly one other query); R-NOABSORB. R-CONCAT: the union of two types never drops a member by a `matches` test. R-MEETCELL: the meet never looks inside two cell types. Decides the direction clauses of the subtype relation on a provenance analysis of Type::matches, FunctionType::matches, "
+     [variance.run, round3.run_meetuse, round4.run_meetcell, round4.run_meetoperand, round4.run_concat, fold.run, round6.run_noabsorb, round6.run_whounion],
+     "R-MEETOPERAND: the meet of two function types combines results with results and parameters with parameters of both operands. R-WHOUNION: unions are built by Type::concat only. R-FOLD: every Type query answers for a union member-wise (or delegates to exactly one other query); R-NOABSORB. R-CONCAT: the union of two types never drops a member by a `matches` test. R-MEETCELL: the meet never looks inside two cell types. Decides the direction clauses of the subtype relation on a provenance analysis of Type::matches, FunctionType::matches, "
      "StructType::matches and their closures (every value labelled with the operand - left S or right O -, field and variant "
      "payload it comes from; closures inherit the labels of what they capture and of the iterator they are handed to): arrays, "
      "tuples, struct fields, union members and function results are compared (part of S, part of O); function parameters (O, S); "
@@ -180,8 +180,8 @@ prop("C14",
      "docs/operators.md is the documented table; four operators it omits are placed as the property statement says")
 
 prop("C15",
-     [typeprint.run, round4.run_structprint, round6.run_noabsorb],
-     "R-NOABSORB: reading a union back never absorbs members. R-STRUCTPRINT: the struct type printer never funnels fields through a keyed collection. Decides the structural half of the print / re-parse round trip of types: the printing code (Display of Type, FunctionType, "
+     [typeprint.run, round4.run_structprint, round6.run_noabsorb, round6.run_whounion],
+     "R-WHOUNION: only Type::concat builds a union value, so no union that the parser cannot produce (holding any / ! / one member / a nested union) is ever printed. R-NOABSORB: reading a union back never absorbs members. R-STRUCTPRINT: the struct type printer never funnels fields through a keyed collection. Decides the structural half of the print / re-parse round trip of types: the printing code (Display of Type, FunctionType, "
      "MultiType, read from the MIR as templates + nested positions + the tests `is a union` / `is !` that pick an alternative) is "
      "instantiated with sample sub-types (plain, union, function, function returning a union, cell, array, tuple, (), any, !) in "
      "every nested position and every list length the grammar admits; each text is parsed with the repository's grammar and must "
@@ -210,8 +210,8 @@ prop("C17",
      "compile_fail witnesses, def-use on the operands of Type::matches, must-call", "")
 
 prop("C18",
-     [export.run, export.run_error_struct, partial(panic.run, scope=STDLIB_SCOPE, name="R-PANIC"), cast.run, variant.run, round4.run_stddelegate],
-     "R-STDDELEGATE: helpers named after a std method answer through that method on every path. Decides for all 77 exports: declared parameter names = names the generated closure imports, in order; TypeOf type of each "
+     [export.run, export.run_error_struct, partial(panic.run, scope=STDLIB_SCOPE, name="R-PANIC"), cast.run, variant.run, round4.run_stddelegate, export.run_ret],
+     "R-EXPORT-RET: the derived result type of an export is the TypeOf of the Rust type whose value is converted (io::Result keeps its error struct). R-STDDELEGATE: helpers named after a std method answer through that method on every path. Decides for all 77 exports: declared parameter names = names the generated closure imports, in order; TypeOf type of each "
      "undecorated parameter = its TryInto target; TypeOf kind = kind tested by TryFrom<&Variable> (8 rows); error-struct keys "
      "agree; every panic-capable site under stdlib is a reviewed row (fs / io bodies have none); stdlib casts are listed with "
      "their documented semantics. Does NOT decide that helpers return what docs/stdlib.md says.",
